@@ -1,5 +1,6 @@
 import FatVerif.Proofs.FatMore
 import FatVerif.Proofs.FatChains
+import FatVerif.Proofs.FatTerm
 /-!
 # C03 (FAT-table part) and C20.2 / C20.3 — allocation, truncation, chain invariant, wrap-around, offset arithmetic
 -/
@@ -97,8 +98,8 @@ example : Chain (view .fat16 exTab) 5 [5, 7] ∧ (truncateChain .fat16 exTab 5 8
     view .fat16 (truncateChain .fat16 exTab 5 8).fat 7 = .free :=
   ⟨Chain.cons 5 7 [7] rfl (Chain.last 7 (by intro n h; cases h)), rfl, rfl, rfl⟩
 
-/-- in the pure setting (no device fault) `free`/`truncate` never hang on an acyclic in-table chain: the F10 latch
-    needs a failing read followed by a succeeding write, which a fault-free stream cannot produce -/
+/-- on an acyclic in-table chain `total+2` loop iterations always suffice (see `free_never_hangs` for arbitrary
+    tables) -/
 theorem free_no_hang (ft : FatType) (f : Array Nat) (total c : Nat) (cs : List Nat) (ht : TableOk ft f total)
     (hch : Chain (view ft f) c cs) (hnd : cs.Nodup) (hin : ∀ k, k ∈ cs → k < total + 2) :
     (freeChain ft f c (total + 2)).out ≠ .error .hang := by
@@ -109,15 +110,55 @@ theorem free_no_hang (ft : FatType) (f : Array Nat) (total c : Nat) (cs : List N
   obtain ⟨f', h1, _⟩ := free_spec ft f total c cs ht hch hnd hin (total + 2) hlen
   rw [h1]; intro h; cases h
 
-/-- the F10 mechanism as modelled: with the latch set (a failed `next()`), `free` can only end in `hang` as long as the
-    writes succeed. In the pure setting the latch cannot be set while the write succeeds (a read of entry `n` fails
-    iff the write of entry `n` fails), which is why `hang` is unreachable here and needs a device fault. -/
-theorem free_latched_hangs (ft : FatType) (k : Nat) (f : Array Nat) (n cnt : Nat) (h : InRange ft f n)
-    (hs : ft = .fat32 → ¬ special32 n) : (freeLoop ft k f ⟨some n, true⟩ cnt).out = .error .hang :=
-  freeLoop_latched_hangs ft k f n cnt h hs
+/-- **free_never_hangs** (after the F10 repair, commit 54cda0a). On ANY byte-valued table — cyclic chains, links out
+    of range or into padding, a table shorter than `total` needs — and from ANY start cluster, `free` with fuel
+    greater than the byte length ends with a count or with one of `panic` (u32 offset overflow / `Free` on a special
+    FAT32 cluster number), `eof` (the cluster's entry is outside the bytes), `writeZero`; never with `hang`.
+    Reason: a continuing iteration read `view n = Data m` and then writes `Free` into `n`, so the number of links
+    strictly decreases; a cycle ends when the walk returns to an entry it has already freed. -/
+theorem free_never_hangs (ft : FatType) (f : Array Nat) (c fuel : Nat) (hf : WfBytes f) (hfuel : f.size + 1 ≤ fuel) :
+    ChainOutcome (freeChain ft f c fuel).out ∧ (freeChain ft f c fuel).out ≠ .error .hang := by
+  have h := freeChain_terminates ft f c fuel hf hfuel
+  refine ⟨h, ?_⟩
+  intro e; rw [e] at h
+  rcases h with ⟨n, h⟩ | h | h | h <;> cases h
 
-example : (freeLoop .fat16 1000 exTab ⟨some 5, true⟩ 0).out = .error .hang :=
-  free_latched_hangs .fat16 1000 exTab 5 0 (by decide) (by intro h; cases h)
+theorem truncate_never_hangs (ft : FatType) (f : Array Nat) (c fuel : Nat) (hf : WfBytes f)
+    (hfuel : f.size + 1 ≤ fuel) :
+    ChainOutcome (truncateChain ft f c fuel).out ∧ (truncateChain ft f c fuel).out ≠ .error .hang := by
+  have h := truncateChain_terminates ft f c fuel hf hfuel
+  refine ⟨h, ?_⟩
+  intro e; rw [e] at h
+  rcases h with ⟨n, h⟩ | h | h | h <;> cases h
+
+/-- the sharp bound: the loop runs at most (number of `Data` links among the entries that can hold one) + 1 times.
+    If no padding entry `≥ total+2` holds a link (true after `format_fat`, which marks them EOC), `total + 3`
+    iterations suffice for any start cluster and any shape of the links, cycles included. -/
+theorem free_never_hangs_table (ft : FatType) (f : Array Nat) (total c fuel : Nat) (hf : WfBytes f)
+    (hpad : ∀ i, total + 2 ≤ i → isData (view ft f i) = false) (hfuel : total + 3 ≤ fuel) :
+    ChainOutcome (freeChain ft f c fuel).out ∧ ChainOutcome (truncateChain ft f c fuel).out := by
+  have hle := dataCount_le (view ft f) (total + 2)
+  exact ⟨freeLoop_terminates (total + 2) fuel f c 0 hf hpad (by omega),
+    truncateChain_terminates_gen ft (total + 2) f c fuel hf hpad (by omega)⟩
+
+/-- FAT16 table with a 2-cycle 2→3→2 and a ρ-shaped chain 4→5→6→5 -/
+def exCyc : Array Nat :=
+  #[0xF8, 0xFF, 0xFF, 0xFF, 0x03, 0x00, 0x02, 0x00, 0x05, 0x00, 0x06, 0x00, 0x05, 0x00]
+
+/-- what a cycle does: the walk frees 2, 3, comes back to 2 (now `Free`, no link), "frees" it again and stops.
+    Both clusters are reclaimed but the returned count is one too high (3 for 2 clusters; 4 for the 3 clusters of the
+    ρ-shaped chain) — on such a corrupt table the caller's free-cluster counter drifts by one. -/
+theorem free_cycle_example :
+    (freeChain .fat16 exCyc 2 15).out = .ok 3 ∧
+    view .fat16 (freeChain .fat16 exCyc 2 15).fat 2 = .free ∧ view .fat16 (freeChain .fat16 exCyc 2 15).fat 3 = .free ∧
+    (freeChain .fat16 exCyc 4 15).out = .ok 4 ∧ (truncateChain .fat16 exCyc 4 15).out = .ok 3 ∧
+    WfBytes exCyc ∧ exCyc.size + 1 ≤ 15 :=
+  ⟨rfl, rfl, rfl, rfl, rfl, wfBytes_of_all _ (by decide), by decide⟩
+
+/-- a start cluster outside the bytes is now reported as the read error it is (before the repair the FAT16 path went
+    on to the write and answered `WriteZero`) -/
+example : (freeChain .fat16 exCyc 7 15).out = .error .eof ∧ (freeChain .fat16 exCyc 7 15).fat = exCyc :=
+  ⟨rfl, rfl⟩
 
 /-- **chains_inv.** The FAT-level structural invariant `FatWf` (links in range, links point to allocated entries, no
     two links to the same cluster, no cycles — i.e. the allocated entries form disjoint acyclic chains) is preserved
